@@ -177,7 +177,15 @@ class World:
             return Config().set_contraction(bool(r["b"]))
         if a == "newcomposite":
             args = [self.member_obj(m) for m in r["f"]]
-            args += [self.handles[g][self.step_no % len(self.handles[g])] for g in r["gc"]]
+            if r.get("dup"):
+                # the same composite named several times: all of its handles, and one member envelope
+                for g in r["gc"]:
+                    args += list(self.handles[g])
+                    envs = [self.envs[m] for m, cm in self.comp_of_member.items()
+                            if cm == g and m in self.envs and not self.envs[m].measured]
+                    args += envs[:1]
+            else:
+                args += [self.handles[g][self.step_no % len(self.handles[g])] for g in r["gc"]]
             h = CompositeEnvelope(*args)
             self.ncomp += 1
             c = self.ncomp
